@@ -6,10 +6,14 @@ package props
 // (c16_gen.go) x EVERY permutation of the textual order is evaluated as a single Eval; the values of all
 // names are then read back and compared with compiled Go (one build per declaration set: in Go the order of
 // package-level declarations is irrelevant). Cyclic sets: go/types decides accept/reject.
+// c16_spec.go adds two generated families: specs declaring several names whose initialisers depend on different
+// declarations (per-name dependency lists of base/dep/scope.go Vars/Consts), and declarations using mutually
+// recursive types.
 
 import (
 	"encoding/json"
 	"fmt"
+	"os"
 	"sort"
 	"strings"
 
@@ -38,6 +42,18 @@ type c16Case struct {
 // c16Sets enumerates the declaration sets of the tier.
 func c16Sets(c *core.Ctx) []c16Set {
 	sets := append([]c16Set{}, c16Cyclic...)
+	sets = append(sets, c16RecUsers...)
+	sets = append(sets, c16SpecSets(c.Thorough())...)
+	if only := os.Getenv("C16_ONLY"); only != "" {
+		// development aid: restrict the run to the hand-written/generated Decls-sets whose ID starts with the prefix
+		var f []c16Set
+		for _, s := range sets {
+			if strings.HasPrefix(s.ID, only) {
+				f = append(f, s)
+			}
+		}
+		return f
+	}
 	addDAGs := func(n int, kinds []byte, vectors [][]byte, variants int) {
 		type pair struct{ i, j int }
 		for vi, vec := range vectors {
@@ -144,7 +160,7 @@ func c16Corpus(c *core.Ctx) (sets []c16Set, rejected map[string]string, want map
 	var valid []oracle.Prog
 	for i := range progs {
 		if msg := verdict[progs[i].ID]; msg != "" {
-			if sets[i].Decls == nil {
+			if sets[i].Decls == nil || sets[i].MustBeValid {
 				return nil, nil, nil, fmt.Errorf("generator error: DAG set %s is not valid Go: %s\n%s", progs[i].ID, msg, progs[i].Source())
 			}
 			rejected[progs[i].ID] = msg
@@ -294,7 +310,21 @@ func c16Signature(s *c16Set, src, got string) (sig, why string) {
 // needsMove tells whether some declaration precedes, in the permuted text, a declaration it refers to.
 func c16NeedsMove(s *c16Set, perm []int) bool {
 	if s.Nodes == nil {
-		return true
+		if s.ChunkDeps == nil {
+			return true
+		}
+		pos := make([]int, len(perm))
+		for at, k := range perm {
+			pos[k] = at
+		}
+		for i, l := range s.ChunkDeps {
+			for _, j := range l {
+				if i != j && pos[j] > pos[i] {
+					return true
+				}
+			}
+		}
+		return false
 	}
 	pos := make([]int, len(perm))
 	for at, k := range perm {
@@ -312,8 +342,11 @@ func c16NeedsMove(s *c16Set, perm []int) bool {
 
 func c16Run(c *core.Ctx) {
 	c.Rule("every declaration set (all DAGs over <= N declarations with node i referring to nodes j<i, kinds const / const group with iota / var / type / func, references placed in initialisers, type expressions, " +
-		"function bodies at several block depths and closures, with shadowing decoys; plus hand-written cyclic sets) x EVERY permutation of its textual order is evaluated as one Eval and the values of all names are compared with compiled Go. " +
-		"non-trivial = distinct (set, permutation) pairs in which some declaration textually precedes a declaration it refers to (the sorter must move something), or the set is cyclic")
+		"function bodies at several block depths and closures, with shadowing decoys; plus hand-written cyclic sets; plus the generated family of specs declaring several names " +
+		"(var / const / const group inheriting type and initialisers / var group / multi-value form; 2-3 names; 9 type expressions with 0-5 distinct type names and repeated mentions; per-name initialisers referring to DISTINCT outside vars, funcs, consts, " +
+		"to literals, to sibling names or to an outside declaration that depends on a sibling); plus declarations using mutually recursive types (funcs, vars, types, literals, nil partner fields)) " +
+		"x EVERY permutation of its textual order is evaluated as one Eval and the values of all names are compared with compiled Go. " +
+		"non-trivial = distinct (set, permutation) pairs in which some declaration textually precedes a declaration it refers to (the sorter must move something), or the set is a hand-written cyclic one")
 	c.Assume("the Go toolchain installed in the image (go1.23.5) is the reference for 'compiled Go'; go/types decides which cyclic sets are valid Go",
 		"all permutations of one set are evaluated in one interpreter with per-permutation name suffixes; the first and the last permutation of every set, and every disagreement, are (re-)evaluated on a fresh interpreter")
 	sets, rejected, want, err := c16Corpus(c)
@@ -393,6 +426,9 @@ func c16Judge(c *core.Ctx, s *c16Set, perm []int, sfx, src, got, want, goRejects
 		cas.Got = got
 	}
 	sig, why := c16Signature(s, src, got)
+	if os.Getenv("C16_DEBUG") != "" {
+		c.Count(fmt.Sprintf("debug: %s perm=%v sig=%s got=%q", s.ID, perm, sig, got), 1)
+	}
 	c.Count("cases_by_signature:"+sig, 1)
 	if why != "" {
 		why = "\ncause: " + why
